@@ -13,6 +13,7 @@ import (
 	"strings"
 
 	"github.com/DOSNetwork/core/group/bn256"
+	"github.com/dedis/kyber"
 	"github.com/ethereum/go-ethereum/common"
 	"github.com/ethereum/go-ethereum/core/vm"
 	google "github.com/ethereum/go-ethereum/crypto/bn256/google"
@@ -998,11 +999,105 @@ func execCheck(w []string) h.Result {
 	return res
 }
 
+// checkl <g1|g1|…> <g2|g2|…>: PairingCheck on two slices whose lengths may differ (review F #8). point.go's loop is
+// `for i := range a { … b[i] … }`: a shorter b is an index-out-of-range panic (Impl "panic"), a longer b is cut
+// silently. The model states both (Model/Bn256CheckSlices.lean, Props/C10GT.kyber_pairingCheck_lengths); no clause of
+// C10 speaks about unequal lengths and the only caller in /repo (bls.Verify) passes 2 and 2, so there is no property
+// oracle for the short-b case; for a longer b the answer must be the one for the first len(a) pairs (google reference).
+func execCheckL(w []string) h.Result {
+	res := h.Result{Class: "checkl", Nontrivial: true}
+	var g1s []g1raw
+	var g2s []g2raw
+	if w[1] != "-" {
+		for _, e := range strings.Split(w[1], "|") {
+			g1s = append(g1s, g1Of(e))
+		}
+	}
+	if w[2] != "-" {
+		for _, e := range strings.Split(w[2], "|") {
+			g2s = append(g2s, g2Of(e))
+		}
+	}
+	s := bn256.NewSuite()
+	var ka, kb []kyber.Point
+	for i := range g1s {
+		p := s.G1().Point()
+		*bn256.VerifG1Of(p) = *asG1(&g1s[i])
+		ka = append(ka, p)
+	}
+	for i := range g2s {
+		q := s.G2().Point()
+		*bn256.VerifG2Of(q) = *asG2(&g2s[i])
+		kb = append(kb, q)
+	}
+	res.Impl = func() (out string) {
+		defer func() {
+			if r := recover(); r != nil {
+				if !strings.Contains(fmt.Sprint(r), "index out of range") {
+					panic(r)
+				}
+				out = "panic"
+			}
+		}()
+		return fmt.Sprint(s.PairingCheck(ka, kb))
+	}()
+	switch {
+	case len(g2s) < len(g1s):
+		res.Class += "-short-b"
+		return res
+	case len(g2s) > len(g1s):
+		res.Class += "-long-b"
+	default:
+		res.Class += "-equal"
+	}
+	var gps []*google.G1
+	var gqs []*google.G2
+	for i := range g1s {
+		if !onCurveJacG1(g1s[i]) || !validG2ForPairing(g2s[i]) {
+			res.Class += "-invalid-input"
+			return res
+		}
+		gp, e1 := googleG1(affG1(g1s[i]))
+		gq, e2 := googleG2(affG2(g2s[i]))
+		if e1 != nil || e2 != nil {
+			res.Class += "-invalid-input"
+			return res
+		}
+		gps, gqs = append(gps, gp), append(gqs, gq)
+	}
+	if want := fmt.Sprint(google.PairingCheck(gps, gqs)); want != res.Impl {
+		res.Oracle = fmt.Sprintf("c10-checkl: PairingCheck on %d and %d points = %s, bn256/google on the first %d pairs says %s", len(g1s), len(g2s), res.Impl, len(g1s), want)
+	}
+	return res
+}
+
+// exec runs a case on the host's default gfpMul path and — for every kind except `f`, which switches the
+// flag per primitive itself — once more with hasBMI2 forced off (review F #7: tower, curve, pairing, kyber
+// and api cases used to run on the default path only). The two runs must give the same canonical output
+// (sig c10-bmi2-paths-differ) and each must satisfy the case's oracle.
 func exec(line string) h.Result {
 	w := strings.Fields(line)
 	if len(w) == 0 {
 		panic("empty case")
 	}
+	res := exec1(w)
+	if !cpuBMI2 || w[0] == "f" {
+		return res
+	}
+	r2 := func() h.Result {
+		old := bn256.VerifSetBMI2(false)
+		defer bn256.VerifSetBMI2(old)
+		return exec1(w)
+	}()
+	if r2.Impl != res.Impl {
+		res.Oracle = fmt.Sprintf("c10-bmi2-paths-differ: %s case: MULX path %.80s MULQ path %.80s", w[0], res.Impl, r2.Impl)
+	} else if res.Oracle == "" && r2.Oracle != "" {
+		res.Oracle = r2.Oracle + " (hasBMI2=false)"
+	}
+	return res
+}
+
+func exec1(w []string) h.Result {
 	switch w[0] {
 	case "f":
 		return execField(w)
@@ -1022,6 +1117,8 @@ func exec(line string) h.Result {
 		return execPair(w)
 	case "check":
 		return execCheck(w)
+	case "checkl":
+		return execCheckL(w)
 	case "api":
 		return execAPI(w)
 	case "k1", "k2", "kt":
